@@ -392,6 +392,28 @@ class Prop(object):
                             if oc != 'ok':
                                 r.viol('time.encode', {'kind': oc, 'field': name, 'given_as': 'utc' if aname == 'utc' else 'aware-non-utc'}, {},
                                        'TZ=%s %s: datetime %r (t=%d) written as %s, want %s' % (tz, name, dt, t, info, four.hex()))
+                    # the one producer of a timestamp that is not a datetime the caller holds: the modification time of a file a message is made from
+                    r.states += 1
+                    try:
+                        import tempfile
+                        import pgpy
+                        with tempfile.TemporaryDirectory(prefix='c09') as td:
+                            path = os.path.join(td, 'dated.bin')
+                            with open(path, 'wb') as f:
+                                f.write(b'x')
+                            os.utime(path, (t, t))
+                            m = pgpy.PGPMessage.new(path, file=True, compression=pgpy.constants.CompressionAlgorithm.Uncompressed)
+                            lit = wire.read_packet(bytes(m))['body']
+                        got = lit[2 + lit[1]:][:4]
+                        oc = 'ok' if got == four else 'mismatch'
+                        info = got.hex()
+                    except Exception as e:
+                        oc, info = 'exception', repr(e)
+                    r.transitions += 1
+                    r.outcomes['file-' + oc] += 1
+                    if oc != 'ok':
+                        r.viol('time.encode', {'kind': oc, 'field': 'literal.mtime', 'given_as': 'file-modification-time'}, {},
+                               'TZ=%s: message made from a file whose modification time is %d: date octets %s, want %s' % (tz, t, info, four.hex()))
                     # durations
                     for cls in (SignatureExpirationTime, KeyExpirationTime):
                         r.states += 1
